@@ -628,6 +628,63 @@ Proof.
     + intros x Hx. apply Hgen. now right.
 Qed.
 
+
+(** error direction: the first item whose stand-alone calls fail makes the joint calls fail *)
+Theorem gen_items_err : forall bb ba fl ic,
+  map fst (ba ++ bb) = its -> Forall (blk_ok curs) (ba ++ bb) ->
+  (forall x, List.In x bb -> snd x = it_zone0 curs (fst x)) ->
+  (exists x e, List.In x bb /\ gen_of (fst x) = Err e) ->
+  exists e', foldM (gen_step2 J) (List.concat (map (fun x => it_calls (fst x)) bb)) (mkG2 (jzone ba ++ jzone bb)%list fl ic) = Err e'.
+Proof.
+  induction bb as [|[it Z] r IH]; intros ba fl ic Hits Hblk Hinit Hfail.
+  - destruct Hfail as (x & e & [] & _).
+  - cbn [map List.concat fst]. rewrite foldM_app.
+    pose proof (Hinit (it, Z) (or_introl eq_refl)) as EZ. cbn [fst snd] in EZ. subst Z.
+    destruct (gen_of it) as [gf|e0] eqn:Egf.
+    + pose proof (gen_items [(it, it_zone0 curs it)] ba fl ic) as H1.
+      (* one item: reuse the success theorem on the state with the rest of the zone appended is not possible; redo the step *)
+      clear H1.
+      assert (Hstep : foldM (gen_step2 J) (it_calls it) (mkG2 (jzone ba ++ jzone ((it, it_zone0 curs it) :: r))%list fl ic)
+                      = Ok (mkG2 (jzone (ba ++ [(it, gen_zone it)]) ++ jzone r)%list (fl ++ it_genflows it)%list ic) /\
+                      blk_ok curs (it, gen_zone it)).
+      { unfold gen_zone. rewrite Egf. destruct it as [n|p co so C].
+        - cbn [gen_of it_zone0] in Egf. inversion Egf. subst gf. cbn [g_zone it_calls it_genflows]. rewrite app_nil_r.
+          split; [|reflexivity]. rewrite jzone_snoc. cbn [it_eb]. rewrite <- app_assoc.
+          change (jzone ((IExt n, map (set_fullcode g) (Xof n curs)) :: r)) with (map (set_fullcode g) (Xof n curs) ++ jzone r)%list.
+          set (Zall := (jzone ba ++ map (set_fullcode g) (Xof n curs) ++ jzone r)%list).
+          assert (Hfind : forall j, List.In j [n; S n; S (S n)] -> exists s, find_sec j Zall = Some s).
+          { intros j Hj. apply find_sec_sids. unfold Zall. rewrite !map_app. apply in_or_app. right. apply in_or_app. left.
+            rewrite map_map. cbn [sid set_fullcode]. rewrite (Xof_xblock n curs Hcs). exact Hj. }
+          assert (Hx : forall j k st, h_zone st = Zall -> List.In j [n; S n; S (S n)] -> (k = CXR \/ k = CFX \/ k = CGOLD) ->
+                    gen_step2 J st (j, k) = Ok st).
+          { intros j k st Hz Hj Hk. unfold gen_step2. rewrite Hz. destruct (Hfind j Hj) as (s0 & ->).
+            destruct Hk as [Hk|[Hk|Hk]]; subst k; reflexivity. }
+          cbn [foldM]. rewrite !Hx; try reflexivity; cbn; tauto.
+        - cbn [gen_of] in Egf. cbn [it_calls it_genflows it_zone0].
+          assert (Hin : List.In (IComp p co so C) its).
+          { rewrite <- Hits, map_app. apply in_or_app. right. now left. }
+          pose proof (mk_bframe its J Hwf Hcs Hndc Hndu Hoks Hext1 HJc HJe HG0' ba r p co so C (zone0 C) Hits Hblk) as HB.
+          change (jzone ((IComp p co so C, zone0 C) :: r)) with (map (emb (iM p so)) (zone0 C) ++ jzone r)%list.
+          unfold emb. rewrite (gen_comp p co so C (jzone ba) (jzone r) fl ic Hin HB), Egf.
+          split; [|cbn [blk_ok fst snd it_zone0]; exact (gen_frames _ _ _ _ Egf)].
+          rewrite jzone_snoc. cbn [it_eb]. unfold emb. now rewrite <- app_assoc. }
+      destruct Hstep as [Hstep Hnew]. rewrite Hstep. cbn [bind].
+      assert (Hits' : map fst ((ba ++ [(it, gen_zone it)]) ++ r) = its).
+      { rewrite <- Hits, !map_app. cbn [map fst]. now rewrite <- app_assoc. }
+      assert (Hblk' : Forall (blk_ok curs) ((ba ++ [(it, gen_zone it)]) ++ r)).
+      { rewrite <- app_assoc. cbn [app]. rewrite Forall_app in Hblk |- *. destruct Hblk as [H1 H2]. split; [exact H1|].
+        inversion H2. subst. constructor; assumption. }
+      apply (IH (ba ++ [(it, gen_zone it)])%list (fl ++ it_genflows it)%list ic Hits' Hblk').
+      * intros x Hx. apply Hinit. now right.
+      * destruct Hfail as (x & e & [<-|Hx] & He); [cbn [fst] in He; rewrite Egf in He; discriminate|]. now exists x, e.
+    + destruct it as [n|p co so C]; [discriminate|]. cbn [gen_of] in Egf. cbn [it_calls it_zone0].
+      assert (Hin : List.In (IComp p co so C) its).
+      { rewrite <- Hits, map_app. apply in_or_app. right. now left. }
+      pose proof (mk_bframe its J Hwf Hcs Hndc Hndu Hoks Hext1 HJc HJe HG0' ba r p co so C (zone0 C) Hits Hblk) as HB.
+      change (jzone ((IComp p co so C, zone0 C) :: r)) with (map (emb (iM p so)) (zone0 C) ++ jzone r)%list.
+      unfold emb. rewrite (gen_comp p co so C (jzone ba) (jzone r) fl ic Hin HB), Egf. cbn [bind]. now exists e0.
+Qed.
+
 (* ------------------------------------------------------------------ *)
 (** * A round of block-local steps over all items (registered cash flows, exogenous declarations) *)
 
@@ -696,6 +753,53 @@ Proof.
     + rewrite jzone_snoc, <- !app_assoc. unfold jzone at 3. cbn [map List.concat fst snd].
       fold (jzone (map (fun x => (fst x, loc_zone x)) r)). reflexivity.
     + rewrite <- app_assoc in IH2. exact IH2.
+Qed.
+
+
+(** error direction: the first item whose stand-alone batch fails makes the joint round fail *)
+Theorem round_items_err : forall bb ba,
+  map fst (ba ++ bb) = its -> Forall (blk_ok curs) (ba ++ bb) ->
+  (forall p co so C Z, List.In (IComp p co so C, Z) bb -> forall x, List.In x (batch (IComp p co so C)) -> okX (nsectors p) x) ->
+  (exists p co so C Z e, List.In (IComp p co so C, Z) bb /\ foldM step1 (batch (IComp p co so C)) Z = Err e) ->
+  exists e', foldM step2 (List.concat (map (fun x => it_batch2 (fst x)) bb)) (jzone ba ++ jzone bb)%list = Err e'.
+Proof.
+  induction bb as [|[it Z] r IH]; intros ba Hits Hblk Hb Hfail.
+  - destruct Hfail as (p & co & so & C & Z & e & [] & _).
+  - cbn [map List.concat fst]. rewrite foldM_app.
+    assert (HbZ : blk_ok curs (it, Z)) by (rewrite Forall_forall in Hblk; apply Hblk; apply in_or_app; right; now left).
+    assert (Hnext : forall Z', blk_ok curs (it, Z') ->
+              (exists p co so C Z0 e, List.In (IComp p co so C, Z0) r /\ foldM step1 (batch (IComp p co so C)) Z0 = Err e) ->
+              exists e', foldM step2 (List.concat (map (fun x => it_batch2 (fst x)) r)) (jzone (ba ++ [(it, Z')]) ++ jzone r)%list = Err e').
+    { intros Z' Hnew Hf. apply IH.
+      - rewrite <- Hits, !map_app. cbn [map fst]. now rewrite <- app_assoc.
+      - rewrite <- app_assoc. cbn [app]. rewrite Forall_app in Hblk |- *. destruct Hblk as [H1 H2]. split; [exact H1|].
+        inversion H2. subst. constructor; assumption.
+      - intros p co so C Z0 Hin0. apply (Hb p co so C Z0). now right.
+      - exact Hf. }
+    destruct it as [n|p co so C].
+    + cbn [it_batch2 foldM bind].
+      assert (Ez : (jzone ba ++ jzone ((IExt n, Z) :: r))%list = (jzone (ba ++ [(IExt n, Z)]) ++ jzone r)%list).
+      { rewrite jzone_snoc. cbn [it_eb]. now rewrite <- app_assoc. }
+      rewrite Ez. apply (Hnext Z HbZ).
+      destruct Hfail as (p & co & so & C & Z0 & e & [Hx|Hx] & He); [discriminate|]. now exists p, co, so, C, Z0, e.
+    + assert (Hin : List.In (IComp p co so C) its).
+      { rewrite <- Hits, map_app. apply in_or_app. right. now left. }
+      pose proof (Hb p co so C Z (or_introl eq_refl)) as Hok1.
+      pose proof (mk_bframe its J Hwf Hcs Hndc Hndu Hoks Hext1 HJc HJe HG0' ba r p co so C Z Hits Hblk) as HB.
+      destruct (Hoks _ Hin) as (HCF & Hst & _).
+      pose proof (comp_laws g p so Hst) as Hok.
+      assert (Hism : ism_ok (sec_is_market p) Z).
+      { eapply ism_ok_frame; [exact HbZ|]. now apply ism_zone0. }
+      change (jzone ((IComp p co so C, Z) :: r)) with (map (emb (iM p so)) Z ++ jzone r)%list. unfold emb.
+      cbn [it_batch2]. rewrite (Hblock (iM p so) _ _ Hok (nsectors p) (first_code p) (sec_is_market p) (jzone ba) (jzone r) _ Z HB Hism Hok1).
+      destruct (foldM step1 (batch (IComp p co so C)) Z) as [Z'|e0] eqn:EZ'; cbn [rmap bind]; [|now exists e0].
+      assert (Ez : (jzone ba ++ map (emb_with (e_FC (iM p so)) (iM p so)) Z' ++ jzone r)%list = (jzone (ba ++ [(IComp p co so C, Z')]) ++ jzone r)%list).
+      { rewrite jzone_snoc. cbn [it_eb]. unfold emb. now rewrite <- app_assoc. }
+      rewrite Ez. apply Hnext.
+      * cbn [blk_ok fst snd it_zone0] in HbZ |- *. eapply frames_trans; [exact HbZ|]. eapply Hframe; exact EZ'.
+      * destruct Hfail as (p1 & co1 & so1 & C1 & Z0 & e & [Hx|Hx] & He).
+        -- inversion Hx. subst. rewrite EZ' in He. discriminate.
+        -- now exists p1, co1, so1, C1, Z0, e.
 Qed.
 
 End Round.
@@ -849,6 +953,45 @@ Proof.
   - now rewrite <- Ez.
   - now rewrite <- Ez.
   - intros p co so C Z0 Hin0. apply Hb. now right.
+Qed.
+
+
+(** error direction *)
+Theorem ic_round_err : forall bb ba,
+  map fst (ba ++ bb) = its -> Forall (blk_ok curs) (ba ++ bb) ->
+  (forall p co so C Z, List.In (IComp p co so C, Z) bb -> forall x, List.In x (icb (IComp p co so C)) -> fst (fst x) < nsectors p) ->
+  (exists p co so C Z e, List.In (IComp p co so C, Z) bb /\ ic_rows Z (icb (IComp p co so C)) = Err e) ->
+  exists e', ic_rows (jzone (ba ++ bb)) (List.concat (map (fun x => it_ic2 (fst x)) bb)) = Err e'.
+Proof.
+  induction bb as [|[it Z] r IH]; intros ba Hits Hblk Hb Hfail.
+  - destruct Hfail as (p & co & so & C & Z & e & [] & _).
+  - cbn [map List.concat fst]. rewrite ic_rows_app.
+    assert (Ez : (ba ++ (it, Z) :: r)%list = ((ba ++ [(it, Z)]) ++ r)%list) by (now rewrite <- app_assoc).
+    assert (Hnext : (exists p co so C Z0 e, List.In (IComp p co so C, Z0) r /\ ic_rows Z0 (icb (IComp p co so C)) = Err e) ->
+              exists e', ic_rows (jzone (ba ++ (it, Z) :: r)) (List.concat (map (fun x => it_ic2 (fst x)) r)) = Err e').
+    { intros Hf. rewrite Ez. apply IH; [now rewrite <- Ez|now rewrite <- Ez| |exact Hf].
+      intros p co so C Z0 Hin0. apply (Hb p co so C Z0). now right. }
+    destruct it as [n|p co so C].
+    + cbn [it_ic2 ic_rows bind]. change (ic_rows (jzone (ba ++ (IExt n, Z) :: r)) []) with (@Ok (list (string * string)) []). cbn [bind].
+      destruct Hnext as (e' & He').
+      { destruct Hfail as (p & co & so & C & Z0 & e & [Hx|Hx] & He); [discriminate|]. now exists p, co, so, C, Z0, e. }
+      rewrite He'. now exists e'.
+    + assert (Hin : List.In (IComp p co so C) its) by (rewrite <- Hits, map_app; apply in_or_app; right; now left).
+      pose proof (Hb p co so C Z (or_introl eq_refl)) as Hrefs.
+      pose proof (mk_bframe its J Hwf Hcs Hndc Hndu Hoks Hext1 HJc HJe HG0' ba r p co so C Z Hits Hblk) as HB.
+      destruct (Hoks _ Hin) as (HCF & Hst & _). pose proof (comp_laws g p so Hst) as Hok.
+      assert (HbZ : blk_ok curs (IComp p co so C, Z)) by (rewrite Forall_forall in Hblk; apply Hblk; apply in_or_app; right; now left).
+      assert (Hism : ism_ok (sec_is_market p) Z) by (eapply ism_ok_frame; [exact HbZ|now apply ism_zone0]).
+      assert (Hhead : ic_rows (jzone (ba ++ (IComp p co so C, Z) :: r)) (it_ic2 (IComp p co so C))
+                      = rmap (map (emb_ic (iM p so))) (ic_rows Z (icb (IComp p co so C)))).
+      { rewrite jzone_app. change (jzone ((IComp p co so C, Z) :: r)) with (map (emb (iM p so)) Z ++ jzone r)%list. unfold emb.
+        cbn [it_ic2]. apply (ic_rows_block (iM p so) _ _ Hok (nsectors p) J (first_code p) (sec_is_market p) (jzone ba) (jzone r) Z _ HB Hism Hrefs). }
+      rewrite Hhead. destruct (ic_rows Z (icb (IComp p co so C))) as [rows|e0] eqn:Erows; cbn [rmap bind]; [|now exists e0].
+      destruct Hnext as (e' & He').
+      { destruct Hfail as (p1 & co1 & so1 & C1 & Z0 & e & [Hx|Hx] & He).
+        - inversion Hx. subst. rewrite Erows in He. discriminate.
+        - now exists p1, co1, so1, C1, Z0, e. }
+      rewrite He'. now exists e'.
 Qed.
 
 End IcRound.
